@@ -97,6 +97,7 @@ class Trace:
         self.gw_calls = []          # dict(th_fc_adj, wt_in_soil, zgw)
         self.proc = []              # per step: list of (process name, storage before, storage after, extra)
         self.hashes = []            # C12: per step parameter hashes (optional)
+        self.wx = []                # weather record handed to the daily solution, per step (capture 'wx')
         # after the run
         self.flux = self.storage = self.growth = None
         self.summary = None
@@ -178,8 +179,17 @@ def instrument(trace, capture=()):
             return res
         return w
 
+    def mk_solution(orig):
+        def w(init_cond, param_struct, clock_struct, weather_step, outputs):
+            trace.wx.append([weather_step[0], weather_step[1], weather_step[2], weather_step[3],
+                             weather_step[4] if len(weather_step) > 4 else None])
+            return orig(init_cond, param_struct, clock_struct, weather_step, outputs)
+        return w
+
     try:
         patch(ac_core, "update_time", mk_update_time)
+        if "wx" in capture:
+            patch(ac_core, "solution_single_time_step", mk_solution)
         if "irr" in capture:
             patch(ac_rst, "irrigation", mk_irrigation)
         if "cr" in capture:
